@@ -271,6 +271,23 @@ func runCheck(o checkOpts) int {
 				suffix = ""
 			}
 		}
+		if suffix != "" {
+			// a witness recorded with an earlier (repaired or known) finding about this obligation:
+			// if it fails again on the current code it is the failing input
+			for _, f := range kf.Findings {
+				if f.Replay == nil || !(ob.Name == f.Obligation || strings.HasPrefix(ob.Name, f.Obligation+"@") || strings.HasPrefix(ob.Name, f.Obligation+"/")) {
+					continue
+				}
+				still, detail := p.replayKnown(o, f)
+				rep["recorded_finding"] = f.ID
+				rep["replay_on_real_code"] = detail
+				if still && !strings.HasPrefix(detail, "replay failed to run") && !strings.HasPrefix(detail, "replay returned no") {
+					rep["known_replay"] = f.Replay
+					suffix = ""
+					break
+				}
+			}
+		}
 		data, _ := json.MarshalIndent(rep, "", " ")
 		os.WriteFile(rf, data, 0o644)
 		fmt.Printf("VIOLATION property=%s replay=%s%s\n", o.id, rf, suffix)
